@@ -159,7 +159,7 @@ def make_irregular_polygon_aperture(vertices):
         res = grid.zeros()
 
         mask = make_rectangular_aperture(size, center=center)(grid).astype('bool')
-        res[mask] = p.contains_points(grid.points[mask])
+        res[mask] = p.contains_points(grid.as_('cartesian').points[mask])
 
         return res
 
